@@ -249,7 +249,7 @@ pub fn judge(c: &Case, st: &mut Stats) -> Verdict {
     Ok(())
 }
 
-fn gen_case(t: &mut Tape) -> Case {
+pub fn gen_case(t: &mut Tape) -> Case {
     let addr = bld::gen_addr(t);
     let need = NEED[enc::family_code(&addr) as usize];
     let mut room = 65535 - need;
